@@ -991,7 +991,8 @@ def compare_outputs(setup, rp, res, written, cmp, outdir):
                 dphi = (ch[big, 1] - (np.angle(ref[big]) / np.pi * 180) % 360 + 180) % 360 - 180
                 cmp.close(f + ":characters phase", dphi, np.zeros(len(dphi)), 0.06)
             if ir._ir_labels:
-                cmp.equal(f + ":ir_labels", [x.get("ir_label") for x in y["normal_modes"]], list(ir._ir_labels))
+                cmp.equal(f + ":ir_labels", [str(x.get("ir_label")) for x in y["normal_modes"]],
+                          [str(l) for l in ir._ir_labels])
             cmp.equal(f + ":irreps section", "irreps" in y, bool(rp.st.show_irreps))
         elif f.startswith(ANIME_FILES) and "anime_dir" in res:
             cmp.checked.add("ANIME")
@@ -1243,7 +1244,7 @@ def workflow_cases(su, full):
         add("tdm-cif", cmd, base + ["--mesh"] + M + ["--tdm-cif", "300"])
         add("moment", cmd, base + ["--mesh"] + M + ["--moment"])
         add("modulation", cmd, base + ["--modulation", "2 4 1, 0.5 0.25 0 1 2.0, 0.5 0.25 0 %d 1.0 90"
-                                       % (3 * len(su.symbols))])
+                                       % (3 * len(su.make(None).primitive))])
         add("irreps-gamma", cmd, base + ["--irreps", "0", "0", "0"])
         add("irreps-x-lcg", cmd, base + ["--irreps", "1/2", "0", "0", "1e-3", "--show-irreps", "--lcg"])
         add("anime-vsim", cmd, base + ["--anime", "0", "0.5", "0"])  # (a 4th value, the amplitude, makes
